@@ -453,3 +453,224 @@ func ruleSpecArraySearch(c *Ctx, r *R) {
 		}
 	}
 }
+
+func init() {
+	register(&Rule{ID: "SPEC-exec-lastindex", Props: []string{"C10"}, Min: 1,
+		Doc: "E (exhaustive abstract evaluation of the shared exec helper): RegExp.prototype.exec / test (15.10.6.2 steps 4-11) on the subject \"abcd\", lastIndex in {-1, 0, 2, 4, 5}, global or not, and three outcomes of the matcher (no match, an empty match at the start of the searched suffix, a non-empty match at offset 1). Compared: whether and on which suffix the matcher is consulted (i = global ? lastIndex : 0; i < 0 or i > length fails without matching), every write of lastIndex (0 on failure; exactly the end index of the match when global; none otherwise), and the reported match offsets (relative offsets shifted by i). The matcher, the property reads and writes are hooks; the arithmetic is the function's own",
+		Run: ruleSpecExecLastIndex})
+}
+
+func ruleSpecExecLastIndex(c *Ctx, r *R) {
+	w := defineWorldFor(c)
+	if w == nil {
+		r.undecided("world", "-", "UNRESOLVED: the abstract model of SPEC-define-own is not available")
+		return
+	}
+	m := w.m
+	var fn *ssa.Function
+	if f := c.LookupFunc("", "execRegExp"); f != nil {
+		fn = c.SSAFunc(f)
+	}
+	numT := c.LookupType("", "_number")
+	if fn == nil || numT == nil {
+		r.undecided("anchor", "-", "UNRESOLVED: execRegExp / _number")
+		return
+	}
+	nst := numT.Underlying().(*types.Struct)
+	fInt := -1
+	for i := 0; i < nst.NumFields(); i++ {
+		if nst.Field(i).Name() == "int64" {
+			fInt = i
+		}
+	}
+	ost := m.tObject.Underlying().(*types.Struct)
+	fClass := -1
+	for i := 0; i < ost.NumFields(); i++ {
+		if ost.Field(i).Name() == "class" {
+			fClass = i
+		}
+	}
+	cls, _ := c.Otto().Types.Scope().Lookup("classRegExpName").(*types.Const)
+	reT := c.LookupType("", "regExpObject")
+	fRE := -1
+	if reT != nil {
+		rst := reT.Underlying().(*types.Struct)
+		for i := 0; i < rst.NumFields(); i++ {
+			if rst.Field(i).Name() == "regularExpression" {
+				fRE = i
+			}
+		}
+	}
+	if fInt < 0 || fClass < 0 || cls == nil || fRE < 0 {
+		r.undecided("anchor:fields", "-", "UNRESOLVED: _number.int64 / object.class / classRegExpName")
+		return
+	}
+	var lastIndex int64
+	var global bool
+	var outcome string
+	var searched []string
+	var puts []string
+	hooks := map[string]absHook{
+		"(*object).get": func(in *absInterp, call *ssa.CallCommon, args []aval) (aval, bool) {
+			switch s, _ := args[1].(aStr); string(s) {
+			case "lastIndex":
+				return m.mkValue(in, fmt.Sprintf("n:%d", lastIndex)), true
+			case "global":
+				if global {
+					return m.mkValue(in, "true"), true
+				}
+				return m.mkValue(in, "false"), true
+			}
+			return m.mkValue(in, "undefined"), true
+		},
+		"(Value).bool": func(in *absInterp, call *ssa.CallCommon, args []aval) (aval, bool) {
+			return aBool(m.valueAtom(args[0]) == "true"), true
+		},
+		"(Value).number": func(in *absInterp, call *ssa.CallCommon, args []aval) (aval, bool) {
+			v := args[0].(aStruct)
+			out := in.zero(numT).(aStruct)
+			if p, ok := v.f[m.valueFieldValue].(aIface); ok {
+				if n, ok := p.v.(aInt); ok {
+					out.f[fInt] = n
+				}
+			}
+			return out, true
+		},
+		"(*object).regExpValue": func(in *absInterp, call *ssa.CallCommon, args []aval) (aval, bool) {
+			out := in.zero(reT).(aStruct)
+			out.f[fRE] = aAtom{"compiled-regexp"}
+			return out, true
+		},
+		"(*object).put": func(in *absInterp, call *ssa.CallCommon, args []aval) (aval, bool) {
+			name, _ := args[1].(aStr)
+			v := "?"
+			if s, ok := args[2].(aStruct); ok {
+				if p, ok := s.f[m.valueFieldValue].(aIface); ok {
+					if n, ok := p.v.(aInt); ok {
+						v = fmt.Sprint(int64(n))
+					}
+				}
+			}
+			puts = append(puts, string(name)+"="+v)
+			return aNil{}, true
+		},
+		"intValue": func(in *absInterp, call *ssa.CallCommon, args []aval) (aval, bool) {
+			n, _ := args[0].(aInt)
+			return m.mkValue(in, fmt.Sprintf("n:%d", int64(n))), true
+		},
+	}
+	matcher := func(in *absInterp, call *ssa.CallCommon, args []aval) (aval, bool) {
+		s, _ := args[len(args)-1].(aStr)
+		searched = append(searched, string(s))
+		var e []aval
+		switch outcome {
+		case "none":
+			return aNil{}, true
+		case "empty":
+			e = []aval{aInt(0), aInt(0)}
+		case "at1":
+			if len(s) < 2 {
+				return aNil{}, true
+			}
+			e = []aval{aInt(1), aInt(2)}
+		}
+		return aSlice{arr: aRef{root: &acell{v: aArr{e: e}, name: "match"}}, n: len(e)}, true
+	}
+	hooks["(*regexp.Regexp).FindStringSubmatchIndex"] = matcher
+	hooks["regexp.(*Regexp).FindStringSubmatchIndex"] = matcher
+	hooks["(*Regexp).FindStringSubmatchIndex"] = matcher
+	in := newAbsInterp(hooks)
+	const subject = "abcd"
+	n, bad, fail := 0, "", ""
+	for _, lastIndex = range []int64{-1, 0, 2, 4, 5} {
+		for _, global = range []bool{false, true} {
+			for _, outcome = range []string{"none", "empty", "at1"} {
+				n++
+				searched, puts = nil, nil
+				obj := in.zero(m.tObject).(aStruct)
+				obj.f[fClass] = aStr(constantStringVal(cls))
+				ret, pan, f := absRun(in, fn, []aval{aRef{root: &acell{v: obj, name: "re"}}, aStr(subject)})
+				if f != "" || pan != nil {
+					fail = f + describeAvalOrNil(pan)
+					continue
+				}
+				// ES5
+				i := int64(0)
+				if global {
+					i = lastIndex
+				}
+				var wantSearched, wantPuts []string
+				wantMatch := "no match"
+				if i < 0 || i > int64(len(subject)) {
+					wantPuts = []string{"lastIndex=0"}
+				} else {
+					suffix := subject[i:]
+					wantSearched = []string{suffix}
+					s, e := int64(-1), int64(-1)
+					switch outcome {
+					case "empty":
+						s, e = 0, 0
+					case "at1":
+						if len(suffix) >= 2 {
+							s, e = 1, 2
+						}
+					}
+					if s < 0 {
+						wantPuts = []string{"lastIndex=0"}
+					} else {
+						wantMatch = fmt.Sprintf("[%d %d]", i+s, i+e)
+						if global {
+							wantPuts = []string{fmt.Sprintf("lastIndex=%d", i+e)}
+						}
+					}
+				}
+				gotMatch := "no match"
+				if tup, ok := ret.(aTuple); ok && len(tup) == 2 {
+					if b, ok := tup[0].(aBool); ok && bool(b) {
+						gotMatch = describeIntSlice(in, tup[1])
+					}
+				}
+				if fmt.Sprint(searched) != fmt.Sprint(wantSearched) || fmt.Sprint(puts) != fmt.Sprint(wantPuts) || gotMatch != wantMatch {
+					if bad == "" {
+						bad = fmt.Sprintf("subject %q, lastIndex %d, global %v, matcher outcome %s: searched %v, wrote %v, reported %s; ES5 15.10.6.2 searches %v, writes %v, reports %s", subject, lastIndex, global, outcome, searched, puts, gotMatch, wantSearched, wantPuts, wantMatch)
+					}
+				}
+			}
+		}
+	}
+	site := c.Pos(fn.Pos())
+	switch {
+	case fail != "":
+		r.undecided("exec", site, "UNDECIDED: the abstract evaluator does not model "+fail)
+	case bad != "":
+		r.bad("exec", site, "deviates from ES5: "+bad)
+	default:
+		r.ok("exec", site, fmt.Sprintf("%d cases agree with ES5", n))
+	}
+}
+
+func constantStringVal(k *types.Const) string {
+	s := k.Val().ExactString()
+	if len(s) >= 2 && s[0] == '"' {
+		return s[1 : len(s)-1]
+	}
+	return s
+}
+
+func describeIntSlice(in *absInterp, v aval) string {
+	sl, ok := v.(aSlice)
+	if !ok {
+		return "?"
+	}
+	arr, ok := in.load(sl.arr).(aArr)
+	if !ok {
+		return "?"
+	}
+	var out []int64
+	for i := 0; i < sl.n; i++ {
+		if n, ok := arr.e[sl.off+i].(aInt); ok {
+			out = append(out, int64(n))
+		}
+	}
+	return fmt.Sprint(out)
+}
